@@ -285,7 +285,8 @@ def server_leaves_run(ctx, bins, peer, rid, exit_code, die_ms, stats, known_fail
     w.update({"handed_before_exit": len(before), "handed_after_exit": len(after), "bytes_after_exit": bytes_after, "allowed_bytes": allowed, "pipe_capacity": pipe, "batch": len(names)})
     stats.setdefault("server_leaves", []).append({k: w[k] for k in ("scenario", "handed_before_exit", "handed_after_exit", "bytes_after_exit", "allowed_bytes", "batch")})
     if remaining_bytes_if_all_sent < 2 * allowed:
-        ctx.inconclusive.append(prefix + " server-leaves: the batch was too small to tell (remaining %.0f bytes, allowance %d)" % (remaining_bytes_if_all_sent, allowed))
+        # not decidable for this timing: counted; the check as a whole is inconclusive only if no scenario was decidable
+        stats["server_leaves_undecidable"] = stats.get("server_leaves_undecidable", 0) + 1
         return
     stats["server_leaves_decided"] = stats.get("server_leaves_decided", 0) + 1
     if bytes_after > allowed:
@@ -378,7 +379,7 @@ def run(ctx, bins, peer, tier):
     rnd = random.Random(ctx.seed * 7919 + 1)
     stats = {}
     ctx.extra["c05"] = stats
-    for j, (code, ms) in enumerate([(0, 150), (1, 150)] if tier == "quick" else [(0, 100), (1, 100), (0, 300), (3, 300), (0, 20), (0, 600)]):
+    for j, (code, ms) in enumerate([(0, 150), (1, 150)] if tier == "quick" else [(0, 100), (1, 100), (0, 300), (3, 300), (0, 20), (0, 200)]):
         server_leaves_run(ctx, bins, peer, j, code, ms, stats)
     for ms_ in ((2,) if tier == "quick" else (1, 2, 3)):
         stubborn_servers_run(ctx, bins, peer, ms_, stats)
